@@ -2,6 +2,8 @@ package idlprint
 
 import (
 	"fmt"
+	"strconv"
+	"strings"
 
 	"go.uber.org/thriftrw/ast"
 )
@@ -227,7 +229,11 @@ func field(c *Ctx, f fieldSpec, vp *[]ValuePos) *ast.Field {
 	}
 	if f.id != "" {
 		start(f.id)
-		fmt.Sscan(f.id, &out.ID)
+		if v, err := strconv.ParseInt(strings.TrimPrefix(f.id, "+"), 10, 64); err == nil {
+			out.ID = int(v) // decimal, leading zeros are not octal
+		} else {
+			fmt.Sscan(f.id, &out.ID)
+		}
 		c.T(":")
 	} else {
 		out.IDUnset = true
@@ -416,6 +422,33 @@ func Catalog(vp *[]ValuePos) []Item {
 		out.Annotations = annotations(c, [][2]string{{"k", "v"}})
 		return out
 	})
+	// integer notations: leading zeros are decimal (the IDL has no octal), explicit
+	// plus sign, hex digits of either case, the 64-bit extremes
+	def("enum:notations", func(c *Ctx) ast.Definition {
+		p, doc := c.DocNL("enum")
+		c.T("E2")
+		c.T("{")
+		out := &ast.Enum{Name: "E2", Line: p.Line, Column: p.Col, Doc: doc}
+		for i, nv := range []struct {
+			text string
+			v    int
+		}{{"010", 10}, {"08", 8}, {"-012", -12}, {"+007", 7}, {"0x1F", 31}, {"0x0a", 10}, {"00", 0}} {
+			ip, idoc := c.DocNL(fmt.Sprintf("N%d", i))
+			c.T("=")
+			c.T(nv.text)
+			c.Sep()
+			v := nv.v
+			out.Items = append(out.Items, &ast.EnumItem{Name: fmt.Sprintf("N%d", i), Value: &v, Line: ip.Line, Column: ip.Col, Doc: idoc})
+		}
+		c.NL("}")
+		return out
+	})
+	def("struct:notations", structDef("struct", ast.StructType, "S2", []fieldSpec{
+		{id: "010", req: "optional", typ: i32, name: "a", def: cInt("0099", 99)},
+		{id: "+7", req: "optional", typ: i32, name: "b", def: cInt("-012", -12)},
+		{id: "0x1f", req: "optional", typ: baseType("i64", ast.I64TypeID), name: "c", def: cInt("-9223372036854775808", -9223372036854775808)},
+		{id: "08", req: "optional", typ: baseType("i64", ast.I64TypeID), name: "d", def: cInt("9223372036854775807", 9223372036854775807)},
+	}, nil, vp))
 	def("struct:empty", structDef("struct", ast.StructType, "S0", nil, nil, vp))
 	def("struct:fields", structDef("struct", ast.StructType, "S1", []fieldSpec{
 		{id: "1", req: "required", typ: i32, name: "a"},
